@@ -19,6 +19,7 @@ import (
 	"os"
 	"strconv"
 	"strings"
+	"sync"
 	"time"
 
 	"golang.org/x/perf/benchfmt"
@@ -1237,6 +1238,110 @@ func streamFamily(r *hx.Rand, files int) {
 	}
 }
 
+// concFamily: the conversion must be a pure function of its text also when several Readers work
+// at the same time (the storage server parses uploads per request). One batch = 8 files of ~2000
+// slow-path numbers each (%.17g / %.16e prints of random doubles, large exponents, subnormals, a few
+// long halfway texts). Every file is first read alone through its own Reader, then all 8 are read
+// again AT THE SAME TIME, one goroutine and one Reader per file. Each number whose concurrent
+// reading differs from its sequential one (or on which a goroutine panicked — recovered, reported
+// with the text) becomes a `line` case whose `rd=` is the concurrent result, judged against the
+// correctly rounded value of its own text; so does every 16th number regardless. The number of
+// cases per batch is fixed (48 slots for differences, filled with ordinary numbers when there are
+// fewer), so that the case ids do not depend on the schedule.
+func concFamily(r *hx.Rand, batches int) {
+	const files, perFile, slots = 8, 2000, 48
+	for b := 0; b < batches; b++ {
+		nums := make([][]string, files)
+		bufs := make([][]byte, files)
+		for f := range nums {
+			var buf bytes.Buffer
+			for i := 0; i < perFile; i++ {
+				x := randDouble(r)
+				var t string
+				switch r.Intn(8) {
+				case 0:
+					t = strconv.FormatFloat(x, 'g', 17, 64)
+				case 1:
+					t = strconv.FormatFloat(math.Float64frombits(r.U64()%(1<<52)), 'e', 16, 64) // subnormal
+				case 2:
+					t = strconv.FormatFloat(x, 'e', 20+r.Intn(20), 64)
+				case 3:
+					if r.Chance(1, 20) {
+						t = halfway(x)
+					} else {
+						t = strconv.FormatFloat(x, 'e', 17, 64)
+					}
+				default:
+					t = strconv.FormatFloat(x, 'e', 16, 64)
+				}
+				nums[f] = append(nums[f], t)
+				buf.WriteString("BenchmarkX 1 " + t + " u\n")
+			}
+			bufs[f] = buf.Bytes()
+		}
+		readAll := func(f int) (out []string) {
+			defer func() {
+				if e := recover(); e != nil {
+					// the record being converted when the real code panicked
+					out = append(out, "panic:"+hx.HexS(strings.ReplaceAll(fmt.Sprint(e), "\n", " ")))
+				}
+			}()
+			rd := benchfmt.NewReader(bytes.NewReader(bufs[f]), "f")
+			for rd.Scan() {
+				out = append(out, renderRec(rd.Result()))
+			}
+			return out
+		}
+		seq := make([][]string, files)
+		conc := make([][]string, files)
+		if hangs < 3 {
+			run(id, func() string {
+				return fmt.Sprintf("case %d kind=line iters=31 num=%s spec=0 tag=conc+hang\n", id, hx.HexS(nums[0][0]))
+			}, func(p func(string, ...any)) {
+				for f := 0; f < files; f++ {
+					seq[f] = readAll(f)
+				}
+				var wg sync.WaitGroup
+				for f := 0; f < files; f++ {
+					wg.Add(1)
+					go func(f int) {
+						defer wg.Done()
+						conc[f] = readAll(f)
+					}(f)
+				}
+				wg.Wait()
+			})
+		}
+		at := func(l []string, i int) string {
+			if i < len(l) {
+				return l[i]
+			}
+			return "none"
+		}
+		type pick struct{ f, i int }
+		var diff []pick
+		for f := 0; f < files && len(diff) < slots; f++ {
+			for i := 0; i < perFile && len(diff) < slots; i++ {
+				if at(conc[f], i) != at(seq[f], i) {
+					diff = append(diff, pick{f, i})
+				}
+			}
+		}
+		for j := 0; j < slots; j++ {
+			pk := pick{j % files, (7 * j) % perFile}
+			if j < len(diff) {
+				pk = diff[j]
+			}
+			lineCaseRd("1", nums[pk.f][pk.i], "conc", true, at(conc[pk.f], pk.i))
+		}
+		for f := 0; f < files; f++ {
+			for i := f; i < perFile; i += 16 {
+				lineCaseRd("1", nums[f][i], "conc", true, at(conc[f], i))
+			}
+		}
+	}
+}
+
 // mineAny: does this shard own one of the ids id … id+n-1?
 func mineAny(id, n int) bool {
 	return n >= nshards || func() bool {
@@ -1398,6 +1503,7 @@ func main() {
 
 	clampCases(r)
 	streamFamily(r, hx.N(8, 100))
+	concFamily(r, hx.N(1, 20))
 	// all-digit measurements of 18–20 digits around 2^63 and 10^19 (the int64 fast path of the reader's atof)
 	for _, c := range []string{"9223372036854775807", "9223372036854775808", "9223372036854775809", "9223372036854775817", "9999999999999999999", "10000000000000000000", "18446744073709551615", "18446744073709551616", "922337203685477580", "999999999999999999", "09223372036854775808", "9300000000000000000"} {
 		lineCase("1", c, "corpus", true)
